@@ -75,7 +75,9 @@ theorem fillW_inv {d : DB} {h : Handle} (hi : DBInv d) (ht : d.tree h.version = 
     simp only [fillW, Option.some.injEq] at hS hg
     subst hS
     exact hi.hist _ _ hm k w val hg
-  · intro hn; simp [fillW] at hn
+  · intro hn
+    have hn : d.vers = [] := hn
+    rw [hn] at hm; simp at hm
   · intro S hS
     simp only [fillW, Option.some.injEq] at hS
     subst hS
@@ -104,6 +106,28 @@ theorem rebuild_take_inv {db : DB} {h : Handle} (hi : DBInv db)
       exact ⟨clearW_inv hi, clearW_frame _⟩
     · simp only [List.nil_append, List.cons_append, List.take_succ_cons, List.take_nil, List.take_zero, List.foldl_cons, List.foldl_nil]
       exact ⟨fillW_inv (clearW_inv hi) ht, Frame.trans (clearW_frame _) (fillW_frame hle)⟩
+
+theorem delStampW_inv {d : DB} (hi : DBInv d) : DBInv (delStampW d) :=
+  ⟨hi.nodup, hi.pos, hi.hist, fun S hS => by simp [delStampW] at hS, hi.emptyFast,
+   fun S hS => by simp [delStampW] at hS, hi.contig⟩
+
+/-- every cut point of `dropFastIndex`'s write sequence (stamp delete, then the clear chunk). -/
+theorem drop_take_inv {db : DB} (hi : DBInv db) (n : Nat) :
+    DBInv (applyWrites db ((dropWrites db).take n)) := by
+  unfold dropWrites applyWrites
+  by_cases he : db.fast.isEmpty = true
+  · rw [if_pos he]
+    rcases n with _ | n
+    · exact hi
+    · simp only [List.append_nil, List.take_succ_cons, List.take_nil, List.foldl_cons, List.foldl_nil]
+      exact delStampW_inv hi
+  · rw [if_neg he]
+    rcases n with _ | _ | n
+    · exact hi
+    · simp only [List.nil_append, List.cons_append, List.take_succ_cons, List.take_nil, List.take_zero, List.foldl_cons, List.foldl_nil]
+      exact delStampW_inv hi
+    · simp only [List.nil_append, List.cons_append, List.take_succ_cons, List.take_nil, List.take_zero, List.foldl_cons, List.foldl_nil]
+      exact clearW_inv (delStampW_inv hi)
 
 theorem rebuild_eq_take (db : DB) (h : Handle) :
     rebuild db h = applyWrites db ((rebuildWrites db h).take 2) := by
